@@ -9,6 +9,12 @@ from .. import mailbox_corr as mc
 ID = "C14"
 MODEL = "CLIENT"
 PROP_MODULES = ["WV.Props.ClientSkel", "WV.Props.C14"]
+# translation validation of the control machines' method bodies against WV.Client (tools/extract.py::extract_pyir ->
+# WV/Gen/PyIR.lean; agents/deepPyIR2_integration.md): part of the check as soon as the modules are installed
+import os as _os
+PROP_MODULES += ["WV.Props." + _m for _m in ("PyIR_Client", "PyIR_Client_Boss", "PyIR_Client_Glue")
+                 if _os.path.exists(_os.path.join(_os.path.dirname(_os.path.abspath(__file__)), "..", "..", "lean", "WV",
+                                                  "Props", _m + ".lean"))]
 NATIVE_DECIDE_MODULES = ["WV.Proofs.ClientCert"]   # the one finite certificate, disclosed (DESIGN §4)
 TRUSTED = ["native_decide on the finite certificate of the closed system (WV.Proofs.ClientCert.cert: ~2.8e4 states x 34 events): adds Lean.ofReduceBool/Lean.trustCompiler, i.e. the Lean compiler, to these theorems",
            "the environment model WV.ClientEnv.enabled (what a conformant server/peer/application may do); validated by trace inclusion of real-server runs",
